@@ -109,11 +109,11 @@ def wrap_objects(case, call):
     kind = call[0]
     dense = case['monitor'].startswith('dense')
     if kind in ('evaluate', 'update') and dense:
-        return [kind, [[nm, [[t, Msg(float(v))] for t, v in smp] if nm in ov else smp] for nm, smp in call[1]]]
+        return [kind, [[nm, [[t, Msg(float(v), float(v))] for t, v in smp] if nm in ov else smp] for nm, smp in call[1]]]
     if kind == 'evaluate':
-        return [kind, {k: ([Msg(float(v)) for v in col] if k in ov else col) for k, col in call[1].items()}]
+        return [kind, {k: ([Msg(float(v), float(v)) for v in col] if k in ov else col) for k, col in call[1].items()}]
     if kind == 'update':
-        return [kind, call[1], [[nm, Msg(float(v)) if nm in ov else v] for nm, v in call[2]]]
+        return [kind, call[1], [[nm, Msg(float(v), float(v)) if nm in ov else v] for nm, v in call[2]]]
     return call
 
 
@@ -322,8 +322,13 @@ def setup_spec(case):
     if case.get('period') is not None:
         p = case['period']
         spec.set_sampling_period(p[0], p[1], p[2])
+    if case.get('objvars'):
+        spec.import_module('harness.msgs', 'Msg')
     for v in case.get('vars', []):
-        spec.declare_var(v, 'float')
+        spec.declare_var(v, 'Msg' if v in case.get('objvars', []) else 'float')
+    for v in case.get('objvars', []):
+        if v not in case.get('vars', []):
+            spec.declare_var(v, 'Msg')
     for (cn, ct, cv) in case.get('consts', []):
         spec.declare_const(cn, ct, cv)
     for v, io in sorted(case.get('io', {}).items()):
@@ -341,6 +346,8 @@ def setup_spec(case):
 
 
 def do_call(spec, case, call):
+    if case.get('objvars'):
+        call = wrap_objects(case, call)
     kind = call[0]
     dense = case['monitor'].startswith('dense')
     if kind == 'evaluate':
